@@ -34,7 +34,7 @@ def floors(tier):
     return {"evaluations": 500 if q else 10000, "distinct_nontrivial": 120 if q else 2500, "pairs_checked": 800 if q else 16000,
             "expected_edges": 200 if q else 4000, "expected_no_edge": 400 if q else 8000, "isa:x86": 1, "isa:aarch64": 1,
             "with_bump": 150 if q else 3000, "with_index": 60 if q else 1200, "with_copy": 30 if q else 600, "killed_by_store": 10 if q else 200,
-            "kind:synth": 250 if q else 5000, "kind:curated": 200 if q else 4000, "a64_writeback_between": 15 if q else 300, "bump_copy_bump": 25 if q else 500, "symbolic_displacement": 20 if q else 400, "multi_destination_store": 40 if q else 800, "writeback_store_then_copy": 8 if q else 150, "copy_then_clobber": 20 if q else 400}
+            "kind:synth": 250 if q else 5000, "kind:curated": 200 if q else 3500, "a64_writeback_between": 15 if q else 300, "bump_copy_bump": 25 if q else 500, "symbolic_displacement": 20 if q else 400, "multi_destination_store": 40 if q else 800, "writeback_store_then_copy": 8 if q else 150, "copy_then_clobber": 20 if q else 400}
 
 
 def plan(tier, seed):
